@@ -28,6 +28,8 @@ type Cfg struct {
 	// Big asks for at least 8 entities in each top-level map of the translator
 	// (types, comdats, globals, attribute groups, named metadata, metadata).
 	Big bool
+	// ForceMD asks for generic metadata definitions in every module (otherwise one module in two has them)
+	ForceMD bool
 	// GEPBias makes getelementptr instructions and constant expressions much more frequent.
 	GEPBias bool
 	// DebugInfo adds a specialised debug-info metadata graph (DICompileUnit, DIFile, types, scopes, locations ...).
